@@ -39,7 +39,6 @@ from .. import vlib
 from ..vlib import J, big
 
 REGTEST_BITS = bytes.fromhex("207fffff")
-FREE = {"blockVersion": [4, 0, 0, 0], "cbVersion": [1, 0, 0, 0], "cbSequence": [255] * 4, "cbLocktime": [0] * 4, "tag": list(b"bits")}
 # environment event "at" -> fires before the n-th call of that RPC method (the miner is about to talk to the node)
 POINTS = {"idle": ("getdifficulty", 1), "count": ("getblockcount", 1), "hash": ("getblockhash", 1), "block": ("getblock", 1),
           "mempool": ("getrawmempool", 1), "fetch": ("getrawtransaction", 1), "time": ("getblockcount", 2), "submit": ("submitblock", 1)}
